@@ -555,6 +555,14 @@ func runC10(r *report.Run) {
 			}
 		}
 	}
+	// banks >= $80 lie inside the image only when it is larger than 4 MiB: an 8 MiB image (both tiers)
+	for _, b := range []uint32{0x7F, 0x80, 0x81, 0xFE, 0xFF} {
+		for _, o := range []uint32{0x7FFF, 0x8000, 0xFFF0, 0xFFFF} {
+			for _, l := range []int{1, 3} {
+				cases = append(cases, c10Case{Banks: 0x100, Addr: b<<16 | o, Writes: []int{l}, Reads: []int{0x8000}})
+			}
+		}
+	}
 	// (B) write histories up to depth 4 (thorough 5), then a reader at the same address
 	wl := []int{0, 1, 2, 3, 0x7FFE, 0x7FFF, 0x8000}
 	depth := 4
